@@ -503,7 +503,7 @@ public:
 		, mOutput(nullptr)
 	{
 		static_assert(TMode == SerializeMode::Load, "BitSerializer. This data type can be used only in 'Load' mode.");
-		if (mRootJson.template Parse<rapidjson::kParseFullPrecisionFlag>(encodedInputStr.data(), encodedInputStr.length()).HasParseError()) {
+		if (mRootJson.template Parse<rapidjson::kParseFullPrecisionFlag | rapidjson::kParseIterativeFlag>(encodedInputStr.data(), encodedInputStr.length()).HasParseError()) {
 			throw ParsingException(rapidjson::GetParseError_En(mRootJson.GetParseError()), 0, mRootJson.GetErrorOffset());
 		}
 	}
@@ -524,7 +524,7 @@ public:
 		static_assert(TMode == SerializeMode::Load, "BitSerializer. This data type can be used only in 'Load' mode.");
 		rapidjson::IStreamWrapper isw(encodedInputStream);
 		rapidjson::AutoUTFInputStream<uint32_t, rapidjson::IStreamWrapper> eis(isw);
-		if (mRootJson.template ParseStream<rapidjson::kParseFullPrecisionFlag, rapidjson::AutoUTF<uint32_t>>(eis).HasParseError()) {
+		if (mRootJson.template ParseStream<rapidjson::kParseFullPrecisionFlag | rapidjson::kParseIterativeFlag, rapidjson::AutoUTF<uint32_t>>(eis).HasParseError()) {
 			throw ParsingException(rapidjson::GetParseError_En(mRootJson.GetParseError()), 0, mRootJson.GetErrorOffset());
 		}
 	}
